@@ -24,5 +24,8 @@ OBLIGATIONS = [
      covers='MeshPredictionSchemeMultiParallelogramDecoder::ComputeOriginalValues run twice (self-composition): no dependence on uninitialised heap'),
   Ob('C06.pred_dec_pgram_det', 'C02/preddec.cc', 'h_pgram_det', tier='quick', unwind=10, max_alloc=16, uf_int=True, defines={'NE': 3, 'NCOMP': 1},
      bound='arbitrary in-range table, 3 entries x 1 component', covers='MeshPredictionSchemeParallelogramDecoder::ComputeOriginalValues run twice'),
+  Ob('C06.header_version', 'C05/header.cc', 'h_header', tier='quick', unwind=14, unwindset=['strlen.0:64', 'memcmp.0:8'], defines={'_GLIBCXX_ASSERTIONS': 1}, max_alloc=64, fill_bound=14,
+     bound='12 symbolic header bytes, DecoderBuffer re-initialised with the two-argument Init after an arbitrary earlier version',
+     covers='PointCloudDecoder::Decode sets the buffer version from the header regardless of the buffer history (decoder reuse)'),
 ]
 META = {}
